@@ -163,10 +163,10 @@ impl State {
 //@endfn
 
 //@fn src/state.rs State::reset
-//@props C08 C01 C02 C05 C17 C09
+//@props C08 C01 C02 C05 C06 C17 C09
 //@contract
     ensures
-        !final(self).proto_emitted, // @C08 @C05
+        !final(self).proto_emitted, // @C08 @C05 @C06
         // a memo entry surviving into the next pickle is a GET of an index this pickle never defined (C02) and a simulation that no longer mirrors the bytes (C17)
         final(self).memo@ == Map::<usize, StackObjectRef>::empty(), // @C08 @C02 @C17
         final(self).stack.view() == Seq::<Kind>::empty(), // @C08 @C01 @C17
@@ -2577,6 +2577,9 @@ pub fn get_random_module(&self, source: &mut GenerationSource) -> (r: Result<VfT
 //@subst rate.clamp(0.0, 1.0) => vf_clamp01(rate)
 //@contract
     ensures
+        // C15: a generator configured for rate 1.0 (0.0) really runs at that rate
+        vf_rate_one(rate) ==> vf_rate_one(res.mutation_rate), // @C15
+        vf_rate_zero(rate) ==> vf_rate_zero(res.mutation_rate), // @C15
         res.state == self.state && res.output == self.output, // @C08 @C05
         res.seed == self.seed && res.bufsize == self.bufsize, // @C07
         res.min_opcodes == self.min_opcodes && res.max_opcodes == self.max_opcodes, // @C11
